@@ -634,6 +634,19 @@ func bin(op Op, a, b *Term) *Term {
 		if a == b {
 			return a
 		}
+		for pass := 0; pass < 2; pass++ {
+			// concat(x, 0^k) | zext(y:k) = concat(x, y)
+			if a.op == OConcat && a.args[1].op == OConst && a.args[1].val == 0 {
+				k := a.args[1].W()
+				if b.op == OZext && b.args[0].W() == k {
+					return Concat(a.args[0], b.args[0])
+				}
+				if umax(b) <= mask(k) {
+					return Concat(a.args[0], Extract(b, k-1, 0))
+				}
+			}
+			a, b = b, a
+		}
 	case OBXor:
 		if a.op == OConst {
 			a, b = b, a
@@ -664,9 +677,29 @@ func bin(op Op, a, b *Term) *Term {
 				return Zext(Extract(a, w-1, k), k)
 			}
 		}
-	case OUDiv:
+	case OUDiv, OURem, OSDiv, OSRem:
 		if b.op == OConst && b.val == 1 {
-			return a
+			if op == OUDiv || op == OSDiv {
+				return a
+			}
+			return Const(w, 0)
+		}
+		if b.op == OConst && b.val != 0 && b.val&(b.val-1) == 0 && b.val < uint64(1)<<uint(w-1) {
+			k := bits.TrailingZeros64(b.val)
+			nonneg := umax(a) < uint64(1)<<uint(w-1)
+			if op == OUDiv || (op == OSDiv && nonneg) {
+				return Zext(Extract(a, w-1, k), k)
+			}
+			if op == OURem || (op == OSRem && nonneg) {
+				return Zext(Extract(a, k-1, 0), w-k)
+			}
+		}
+		if b.op == OConst && b.val != 0 && (op == OSDiv || op == OSRem) && umax(a) < uint64(1)<<uint(w-1) && sx(b.val, w) > 0 {
+			// non-negative dividend, positive divisor: unsigned forms
+			if op == OSDiv {
+				return bin(OUDiv, a, b)
+			}
+			return bin(OURem, a, b)
 		}
 	}
 	return TS.mk(&Term{op: op, sort: a.sort, args: []*Term{a, b}})
@@ -728,9 +761,37 @@ func umax(t *Term) uint64 {
 			return t.args[1].val - 1
 		}
 	case OConcat:
-		hi := t.args[0]
-		if hi.op == OConst && hi.val == 0 {
-			return umax(t.args[1])
+		hi, lo := t.args[0], t.args[1]
+		return umax(hi)<<uint(lo.W()) | umax(lo)
+	case OBOr, OBXor:
+		a, b := umax(t.args[0]), umax(t.args[1])
+		if b > a {
+			a = b
+		}
+		// smallest 2^k-1 >= a
+		r := uint64(0)
+		for r < a {
+			r = r<<1 | 1
+		}
+		return r
+	case OUDiv:
+		if t.args[1].op == OConst && t.args[1].val > 0 {
+			return umax(t.args[0]) / t.args[1].val
+		}
+	case OAdd:
+		a, b := umax(t.args[0]), umax(t.args[1])
+		if s := a + b; s >= a && s <= mask(t.W()) {
+			return s
+		}
+	case OMul:
+		a, b := umax(t.args[0]), umax(t.args[1])
+		if a != 0 && b != 0 {
+			hi, lo := bits.Mul64(a, b)
+			if hi == 0 && lo <= mask(t.W()) {
+				return lo
+			}
+		} else {
+			return 0
 		}
 	case OLshr:
 		if t.args[1].op == OConst {
